@@ -54,8 +54,9 @@ PoolT == <<
   N("text",    1, "",  "create", <<>>,     "v"),     \* 11
   N("attr",    1, "y", "create", <<>>,     "y"),     \* 12
   N("attr",    1, "x", "create", <<>>,     "x"),     \* 13
-  N("doc",     14, "", "doc",    <<>>,     "<!DOCTYPE r><?p d?><r y=\"1\"><a><b/>u</a>t</r>"),
-  N("elem",    14, "", "create", <<>>,     "e")      \* 15
+  N("text",    1, "",  "parsed", <<3, -1, 1>>, ""),  \* 14 the value "1" of y
+  N("doc",     15, "", "doc",    <<>>,     "<!DOCTYPE r><?p d?><r y=\"1\"><a><b/>u</a>t</r>"),
+  N("elem",    15, "", "create", <<>>,     "e")      \* 16
 >>
 
 PoolM == <<                      \* mid-size: subtree moves and attribute churn, no foreign document
@@ -103,14 +104,16 @@ VARIABLES S, last
 Init == S = S0 /\ last = [call |-> 0, ok |-> TRUE]
 
 \* one step = one public call.  A call that may only fail is a stuttering step on S.
-Step(i) ==
+Step(par, own, i) ==
   LET c == CallSeq[i]
-      o == Outcome(P, S, c)
+      o == OutcomeX(P, S, par, own, c)
   IN  /\ ~o.any
       /\ \/ (o.ok /\ S' = Apply(P, S, c) /\ last' = [call |-> i, ok |-> TRUE])
          \/ (o.errs # {} /\ S' = S /\ last' = [call |-> i, ok |-> FALSE])
 
-Next == \E i \in DOMAIN CallSeq : Step(i)
+Next == LET par == ParentFn(P, S)
+            own == OwnerFn(P, S)
+        IN  \E i \in DOMAIN CallSeq : Step(par, own, i)
 
 Spec == Init /\ [][Next]_<<S, last>>
 
@@ -140,9 +143,12 @@ InvNoForeign == \A n \in Range(DocOrder(P, S, 1)) : DocOf(P, n) = 1
 Mask(errs) == (IF HIER \in errs THEN 1 ELSE 0) + (IF WRONGDOC \in errs THEN 2 ELSE 0)
               + (IF NOTFOUND \in errs THEN 4 ELSE 0) + (IF INUSE \in errs THEN 8 ELSE 0)
 EdgesOf(s) ==
+  LET par == ParentFn(P, s)
+      own == OwnerFn(P, s)
+  IN
   [i \in DOMAIN CallSeq |->
      LET c == CallSeq[i]
-         o == Outcome(P, s, c)
+         o == OutcomeX(P, s, par, own, c)
      IN IF o.any THEN -1
         ELSE IF o.ok THEN [t |-> Apply(P, s, c), r |-> Returned(P, s, c), e |-> Mask(o.errs)]
         ELSE Mask(o.errs)]
